@@ -23,11 +23,14 @@ def _job(ctx, name, trace, replay, lens=None):
     return runner.TraceJob(name, "RangeTrace", trace, {"Lens": core.tla_set(lens or [ctx.prop])}, chunk=20000, replay=replay)
 
 
-def sharded(ctx, name, args, shards):
+def sharded(ctx, name, args, shards, scenarios=None, per_process=2500):
     """Run the harness in `shards` processes (the plugin never closes its database handle, so the
-    set-ups are spread over processes) and concatenate the traces."""
+    set-ups are spread over processes: at most per_process scenarios each) and concatenate the traces."""
     h = ctx.need_harness()
     wd = ctx.scratch.sub("range-" + name)
+    par = shards
+    if scenarios:
+        shards = max(shards, -(-scenarios // per_process))
 
     def one(i):
         out = os.path.join(wd, "shard%02d.ndjson" % i)
@@ -36,7 +39,7 @@ def sharded(ctx, name, args, shards):
         core.run_harness(h, ["range"] + args + ["-shard", i, "-shards", shards, "-out", out, "-dir", d], wd, timeout=3000)
         return out
 
-    with concurrent.futures.ThreadPoolExecutor(max_workers=shards) as ex:
+    with concurrent.futures.ThreadPoolExecutor(max_workers=par) as ex:
         outs = list(ex.map(one, range(shards)))
     trace = os.path.join(wd, name + ".ndjson")
     with open(trace, "w") as f:
@@ -132,7 +135,8 @@ def check(ctx):
     paths = []
     if ctx.quick:
         depth = 4 if prop == "C03" else 5
-        t = sharded(ctx, "bfs", ["-mode", "bfs", "-depth", depth, "-macs", 3, "-n", 2, "-seed", ctx.seed] + probe, shards)
+        t = sharded(ctx, "bfs", ["-mode", "bfs", "-depth", depth, "-macs", 3, "-n", 2, "-seed", ctx.seed] + probe, shards,
+                    scenarios=7 ** depth, per_process=800 if probe else 2500)
         runner.run_job(ctx, _job(ctx, "bfs", t, _replay))
         paths.append(t)
         t = sharded(ctx, "sim", ["-mode", "sim", "-count", 36, "-ticks", "-seed", ctx.seed] + probe, 6)
@@ -140,13 +144,15 @@ def check(ctx):
         paths.append(t)
     else:
         depth = 5 if prop == "C03" else 6
-        t = sharded(ctx, "bfs", ["-mode", "bfs", "-depth", depth, "-macs", 3, "-n", 2, "-seed", ctx.seed] + probe, shards)
+        t = sharded(ctx, "bfs", ["-mode", "bfs", "-depth", depth, "-macs", 3, "-n", 2, "-seed", ctx.seed] + probe, shards,
+                    scenarios=7 ** depth, per_process=800 if probe else 2500)
         runner.run_job(ctx, _job(ctx, "bfs", t, _replay))
         paths.append(t)
-        t = sharded(ctx, "bfs3", ["-mode", "bfs", "-depth", 4, "-macs", 4, "-n", 3, "-seed", ctx.seed + 1] + probe, shards)
+        t = sharded(ctx, "bfs3", ["-mode", "bfs", "-depth", 4, "-macs", 4, "-n", 3, "-seed", ctx.seed + 1] + probe, shards,
+                    scenarios=9 ** 4, per_process=800 if probe else 2500)
         runner.run_job(ctx, _job(ctx, "bfs3", t, _replay))
         paths.append(t)
-        t = sharded(ctx, "sim", ["-mode", "sim", "-count", 300, "-ticks", "-seed", ctx.seed] + probe, shards)
+        t = sharded(ctx, "sim", ["-mode", "sim", "-count", 300, "-ticks", "-seed", ctx.seed] + probe, shards, scenarios=300, per_process=12)
         runner.run_job(ctx, _job(ctx, "sim", t, _replay))
         paths.append(t)
     st = _stats(paths)
